@@ -117,6 +117,15 @@ CHECKS = {
               "C19_scope_exit_once. Tied to the code by random trees with injected aborts and a fixed tree with a fault at every position, hooks logging (kind, name/key, per-sandbox state, compared "
               "with the sandbox's current state at delivery) and timing records, on vsbx and noop."),
         note=NOTE + "Timing values are not compared."),
+    "C11": dict(
+        engine="invoke", design_ref="DESIGN.md §6 C11",
+        technique="Lean 4 theorems on the marshalling model (list induction, reuse of the C06/C04 theorems) + cache invariants by case analysis + differential execution of a signature family",
+        text=("Proof: C11_args (if the call goes through the guest observed every argument faithfully, position by position: integers by C06, pointers by C04), C11_abort_before_call (an unrepresentable "
+              "argument aborts with zero guest executions), C11_once, C11_result, C11_cache_isolated (a lookup on one instance never touches another's cache), C11_instance under CacheInv with "
+              "lookup/create/destroy preservation lemmas (the function that runs is the named one in the instance's own library), C11_fn_address (independent of the invocation history). "
+              "Tied to the code by 11 signatures (0..12 parameters, all kinds incl. callback and by-value struct) x 4 wrapper forms x 3 live instances with recording guest functions, and by-name "
+              "lookups/addresses on instances bound to two libraries exporting the same names. The shared-cache defect (F12) and the stale cache (F6a) were found by C14/C11 ops and repaired."),
+        note=NOTE + "Calling convention and machine code of the call are trusted; dlsym is not executed."),
 }
 
 TODO_REASON = "check not built yet in this round (design in DESIGN.md §6); will be claimed when its theorems and correspondence check exist"
